@@ -10,6 +10,7 @@ import (
 	"github.com/idena-network/idena-go/blockchain/types"
 	"github.com/idena-network/idena-go/common"
 	"github.com/idena-network/idena-go/config"
+	"github.com/idena-network/idena-go/core/state"
 	"github.com/idena-network/idena-go/verifutil"
 	dbm "github.com/tendermint/tm-db"
 )
@@ -111,6 +112,68 @@ func TestVerifC01Chain(t *testing.T) {
 			nsteps = 130
 		}
 		var chainLog bytes.Buffer
+		// a node that is catching up: it takes the canonical blocks in batches through the path a
+		// full sync uses (protocol/full.go: one ForCheckWithOverwrite view per batch, AddBlock with
+		// that view, FinalizePrecommit after each block) and, every other batch, first examines the
+		// batch the way a fork offer is examined (ValidateSubChain)
+		var syncer *Replica
+		syncNext, syncBatch, syncDead := 0, 1, false
+		if sr, err := tmpReplica(w, w.God, dbm.NewMemDB(), "syncer"); err == nil {
+			syncer = sr
+			syncer.Zone = zones[(sc+5)%len(zones)]
+		}
+		catchUp := func() {
+			if syncer == nil || syncDead || len(w.Blocks)-syncNext < syncBatch {
+				return
+			}
+			pending := w.Blocks[syncNext:]
+			syncer.enter()
+			if s.R.Bool() && syncer.Head().Height() > 1 {
+				var bundles []types.BlockBundle
+				for _, ob := range pending {
+					bundles = append(bundles, types.BlockBundle{Block: ob, Cert: w.Certs[ob.Hash()]})
+				}
+				rep.Count("batches_examined_as_fork", 1)
+				if err := syncer.Chain.ValidateSubChain(syncer.Head().Height(), bundles); err != nil {
+					rep.Violation("replicas-disagree:fork-examination-path:"+ErrClass(err), fmt.Sprintf("scenario %d: canonical blocks %d..%d, accepted by every replica, are refused by ValidateSubChain on a node whose head is their parent: %v",
+						sc, pending[0].Height(), pending[len(pending)-1].Height(), err), DescribeBlock(pending[0]))
+					syncDead = true
+					return
+				}
+			}
+			cs, err := syncer.AppState.ForCheckWithOverwrite(syncer.Head().Height())
+			if err != nil {
+				rep.Note("syncer: ForCheckWithOverwrite failed: %v", err)
+				syncDead = true
+				return
+			}
+			for _, ob := range pending {
+				if err := syncer.Chain.AddBlock(ob, cs, syncer.Stats); err != nil {
+					rep.Violation("replicas-disagree:full-sync-path:"+ErrClass(err)+":"+BlockKind(ob), fmt.Sprintf("scenario %d: canonical block %d (%s), accepted by every replica, is refused by a node that applies it the way a full sync does (batch of %d, shared check view): %v",
+						sc, ob.Height(), BlockKind(ob), len(pending), err), DescribeBlock(ob))
+					syncDead = true
+					return
+				}
+				if err := cs.FinalizePrecommit(ob); err != nil {
+					rep.Note("syncer: FinalizePrecommit failed: %v", err)
+					syncDead = true
+					return
+				}
+				rep.Count("blocks_applied_through_full_sync_path", 1)
+			}
+			rep.Count("full_sync_batches", 1)
+			rep.Max("max_full_sync_batch", len(pending))
+			syncNext = len(w.Blocks)
+			syncBatch = s.R.Range(1, 9)
+			ref := w.Replicas[0]
+			if ref.Head().Hash() == syncer.Head().Hash() {
+				if a, b := DigestState(ref.AppState), DigestState(syncer.AppState); a != b {
+					rep.Violation("replicas-disagree:full-sync-path:state", fmt.Sprintf("scenario %d: at head %d the node that synced in batches holds a different state than %s: %s", sc, ref.Head().Height(), ref.Name, FirstStateDiff(StateKV(ref.AppState), StateKV(syncer.AppState))), nil)
+					syncDead = true
+				}
+				rep.Count("full_sync_state_comparisons", 1)
+			}
+		}
 		for i := 0; i < nsteps; i++ {
 			rep.Progress("C01 scenario %d seed %d step %d", sc, seed, i)
 			if i%5 == 0 {
@@ -196,6 +259,7 @@ func TestVerifC01Chain(t *testing.T) {
 			if !CheckAgreement(w, rep, "C01", b) {
 				break
 			}
+			catchUp()
 			if len(b.Body.Transactions) > 0 || b.Header.Flags() != 0 {
 				rep.Distinct(b.Hash().Hex())
 			}
@@ -308,7 +372,7 @@ func TestVerifC01Shards(t *testing.T) {
 	rep := verifutil.NewReport()
 	defer rep.Write()
 	seed := scenSeed(500)
-	o := Options{Seed: seed, NNodes: 2, NIdent: 5300, NAccounts: 3, AllValidated: true, EpochNoKills: true, FirstCeremonyIn: 20 * time.Minute,
+	o := Options{Seed: seed, NNodes: 2, NIdent: 5300, NAccounts: 3, AllValidated: true, EpochNoKills: true, EpochSuspends: true, FirstCeremonyIn: 20 * time.Minute,
 		ValidationInterval: 45 * time.Minute, StartTime: time.Date(2024, 5, 6, 9, 0, 0, 0, time.UTC)}
 	w := NewWorld(o)
 	defer w.Cleanup()
@@ -389,6 +453,23 @@ func TestVerifC01Shards(t *testing.T) {
 			rep.SetInfo("shards_after_epoch", w.View().AppState.State.ShardsNum())
 		}
 		rep.Max("max_shards_num", int(w.View().AppState.State.ShardsNum()))
+		if b.Header.Flags().HasFlag(types.ValidationFinished) && w.View().AppState.State.ShardsNum() > 1 {
+			// suspended / zombie identities per shard after balancing
+			perShard := map[common.ShardId]int{}
+			w.View().AppState.State.IterateOverIdentities(func(addr common.Address, id state.Identity) {
+				if id.State == state.Suspended || id.State == state.Zombie {
+					perShard[id.ShiftedShardId()]++
+				}
+			})
+			n := 0
+			for _, v := range perShard {
+				n += v
+			}
+			rep.Max("max_suspended_identities_at_shard_balancing", n)
+			if len(perShard) > 1 {
+				rep.Count("balancings_with_suspended_in_several_shards", 1)
+			}
+		}
 		if !CheckAgreement(w, rep, "C01", b) {
 			break
 		}
